@@ -721,6 +721,38 @@ class ThreadSuite(Suite):
         return st
 
 
+class StopRaceSuite(Suite):
+    """~scheduler() in thread mode while the worker is between its stop check and its wait_until (the harness stalls the
+    worker's clock read, which sits exactly there): the stop request must not be lost"""
+    name = "stop-race"
+    harness = HARNESS
+    driver = "drv_c12"
+    corpus_prefix = "c12stop_"
+    chunk = 1
+    nontrivial_rule = "every case (the forced interleaving is the point)"
+
+    def gen_cases(self, rng, tier):
+        n = 3 if tier == "quick" else 40
+        return [{"id": 0, "lines": ["case 0 stoprace %d" % rng.choice([1, 7, 50, 1000, 100000]), "go", "end"]} for _ in range(n)]
+
+    def oracle(self, case, out):
+        msgs = []
+        go = [l for l in out if l.startswith("go")]
+        if not go:
+            return ["hang: no result (%s)" % " ".join(out[-1:])]
+        head, evs = parse_line(go[0])
+        tp = int(case["lines"][0].split()[3])
+        if head[1] != "destroyed=1":
+            msgs.append("hang: ~scheduler() did not return until the clock reached the pending sleep's time point %d: "
+                        "the stop request was lost and the sleep was left hanging" % tp)
+        if len(evs) != 1 or not evs[0].startswith("sleep#0=canceled@"):
+            msgs.append("outcome: the sleep pending at destruction completed as %s" % evs)
+        return msgs
+
+    def stats(self, cases, outs):
+        return {"time_points": sorted({c["lines"][0].split()[3] for c in cases})}
+
+
 class C12(Spec):
     pid = "C12"
     lean_modules = ["CoclsModel.Props.C12"]
@@ -753,15 +785,15 @@ class C12(Spec):
                   "region, so an interleaving is an operation list; cancel's out-of-lock promise resolution touches only the removed "
                   "promise); on the real code the worker runs in real threads but the controlling thread acts only while it is parked, so "
                   "races between a public call and a running worker iteration are not exercised, and real blocking/wake-up latency of "
-                  "wait_until is modelled as enabledness under virtual time, not measured. Not modelled: the stop handshake of "
-                  "~scheduler/start() (request_stop notifies without the mutex; a stop that arrives between the worker's stop check and "
-                  "its wait_until is only seen at the next deadline) — destruction is one atomic step in the model.")
+                  "wait_until is modelled as enabledness under virtual time, not measured. Destruction is one atomic step in the main "
+                  "model; its stop handshake with the worker is a separate micro-step model (Stop.*, c12_stop_not_lost) replayed on the "
+                  "header by one forced interleaving (stop-race suite).")
     assumptions = ["the scheduler is not destroyed while another thread is inside one of its methods",
                    "callbacks attached to sleep futures do not re-enter the scheduler while the worker holds its mutex",
                    "time points and identifiers are modelled as unbounded naturals (no clock overflow)"]
 
     def suites(self):
-        return [ManualSuite(), RunSuite(), ThreadSuite()]
+        return [ManualSuite(), RunSuite(), ThreadSuite(), StopRaceSuite()]
 
 
 SPEC = C12()
